@@ -44,6 +44,21 @@ def free_schemes(draw, values=DYADIC, pos=DYADIC_POS):
 
 
 @st.composite
+def sparse_schemes(draw):
+    """zero-heavy schemes: every free penalty is 0 half of the time (B[1] stays positive, B[3] <= B[4]); whole families
+    of placements then cost the same, so exact score ties between different rankings are the rule, not the exception"""
+    v = st.sampled_from([0.0, 0.0, 0.0, 0.5, 1.0, 2.0])
+    b1 = draw(st.sampled_from([0.5, 1.0, 2.0]))
+    b2 = draw(v)
+    b3, b4 = sorted([draw(v), draw(v)])
+    b5 = draw(v)
+    t0 = draw(v)
+    t3 = draw(v)
+    t5 = draw(v)
+    return [[0.0, b1, b2, b3, b4, b5], [t0, t0, 0.0, t3, t3, t5]]
+
+
+@st.composite
 def preset_multiples(draw, names=None):
     name = draw(st.sampled_from(sorted(PRESETS) if names is None else names))
     k = draw(st.sampled_from(DYADIC_FACTORS))
@@ -116,7 +131,7 @@ def scaled_schemes(draw):
 def dyadic_schemes():
     """exactly representable penalties: every library comparison is decided on exact values"""
     return st.one_of(free_schemes(), free_schemes(), preset_multiples(), near_presets(), free_schemes(),
-                     preset_multiples(), scaled_schemes(), p_family_schemes())
+                     preset_multiples(), scaled_schemes(), p_family_schemes(), sparse_schemes())
 
 
 def decimal_schemes():
@@ -125,7 +140,7 @@ def decimal_schemes():
 
 def any_schemes():
     return st.one_of(free_schemes(), free_schemes(), preset_multiples(), near_presets(), decimal_schemes(),
-                     free_schemes(), preset_multiples(), scaled_schemes(), p_family_schemes())
+                     free_schemes(), preset_multiples(), scaled_schemes(), p_family_schemes(), sparse_schemes())
 
 
 def scheme_labels(s):
